@@ -80,21 +80,23 @@ def encPrim (k : PrimK) (zie : Bool) (v : Val) : Except CErr (Option Bytes) :=
   | .error e => .error e
   | .ok b => .ok (if zie && primEmpty k v then none else some b)
 
-/-- per-field results of a struct body: `some bytes` = presence bit set -/
+/-- one field of a struct body: `some bytes` = presence bit set -/
+def encField (enc : Enc) (f : Field) (v : Option Val) : Except CErr (Option Bytes) :=
+  if f.omitted then .ok none
+  else if f.tl2bit.isSome then
+    match v with
+    | none => .ok none
+    | some x => if f.isBit then .ok (some []) else enc f.ty false x
+  else
+    match v with
+    | some x => enc f.ty true x
+    | none => .error .shape
+
+/-- per-field results of a struct body -/
 def encFieldsWith (enc : Enc) : List Field → List (Option Val) → Except CErr (List (Option Bytes))
   | [], [] => .ok []
   | f :: fs, v :: vs =>
-    let r : Except CErr (Option Bytes) :=
-      if f.omitted then .ok none
-      else if f.tl2bit.isSome then
-        match v with
-        | none => .ok none
-        | some x => if f.isBit then .ok (some []) else enc f.ty false x
-      else
-        match v with
-        | some x => enc f.ty true x
-        | none => .error .shape
-    match r with
+    match encField enc f v with
     | .error e => .error e
     | .ok b =>
       match encFieldsWith enc fs vs with
@@ -307,20 +309,21 @@ def layPrim (k : PrimK) (zie : Bool) (v : Val) : Except CErr (Option Nat) :=
   | .error e => .error e
   | .ok n => .ok (if zie && primEmpty k v then none else some n)
 
+def layField (lay : Lay) (f : Field) (v : Option Val) : Except CErr (Option Nat) :=
+  if f.omitted then .ok none
+  else if f.tl2bit.isSome then
+    match v with
+    | none => .ok none
+    | some x => if f.isBit then .ok (some 0) else lay f.ty false x
+  else
+    match v with
+    | some x => lay f.ty true x
+    | none => .error .shape
+
 def layFieldsWith (lay : Lay) : List Field → List (Option Val) → Except CErr (List (Option Nat))
   | [], [] => .ok []
   | f :: fs, v :: vs =>
-    let r : Except CErr (Option Nat) :=
-      if f.omitted then .ok none
-      else if f.tl2bit.isSome then
-        match v with
-        | none => .ok none
-        | some x => if f.isBit then .ok (some 0) else lay f.ty false x
-      else
-        match v with
-        | some x => lay f.ty true x
-        | none => .error .shape
-    match r with
+    match layField lay f v with
     | .error e => .error e
     | .ok b =>
       match layFieldsWith lay fs vs with
@@ -494,34 +497,36 @@ def isTrueTy (d : Desc) (ty : Nat) : Bool :=
   | some (.struct s) => s.fields.isEmpty
   | _ => false
 
+/-- start of field `i`: a new mask byte is taken from the body when `(i+1) % 8 = 0` (an exhausted body reads as mask 0) -/
+def nextBlock (i : Nat) (block : UInt8) (cur : Bytes) : UInt8 × Bytes :=
+  if (i + 1) % 8 == 0 then (match cur with | b :: r => (b, r) | [] => (0, [])) else (block, cur)
+
+/-- one field of `InternalReadTL2` given its presence bit -/
+def readField (rd : Rd2) (skip : Nat → Bool → Bytes → Except CErr Bytes) (z : Nat → Val) (isTrue : Nat → Bool)
+    (f : Field) (bit : Bool) (cur : Bytes) : Except CErr (Option Val × Bytes) :=
+  if f.isBit then .ok (if bit && f.tl2bit.isSome then some (z f.ty) else none, cur)
+  else if f.omitted || isTrue f.ty then
+    let v : Option Val := if f.omitted || fieldOptional f then none else some (z f.ty)
+    if bit then
+      match skip f.ty f.mask.isNone cur with
+      | .error e => .error e
+      | .ok cur' => .ok (v, cur')
+    else .ok (v, cur)
+  else if bit then
+    match rd f.ty f.mask.isNone cur with
+    | .error e => .error e
+    | .ok (v, cur') => .ok (some v, cur')
+  else .ok (if fieldOptional f then none else some (z f.ty), cur)
+
 /-- the field loop of `InternalReadTL2`; what is left of the body after the last field is dropped by the caller -/
 def readFields2With (rd : Rd2) (skip : Nat → Bool → Bytes → Except CErr Bytes) (z : Nat → Val) (isTrue : Nat → Bool) :
     Nat → UInt8 → List Field → Bytes → Except CErr (List (Option Val))
   | _, _, [], _ => .ok []
   | i, block, f :: fs, cur =>
-    let bc : UInt8 × Bytes :=
-      if (i + 1) % 8 == 0 then (match cur with | b :: r => (b, r) | [] => (0, [])) else (block, cur)
-    let block := bc.1
-    let cur := bc.2
-    let bit := testBit block.toNat ((i + 1) % 8)
-    let step : Except CErr (Option Val × Bytes) :=
-      if f.isBit then .ok (if bit && f.tl2bit.isSome then some (z f.ty) else none, cur)
-      else if f.omitted || isTrue f.ty then
-        let v : Option Val := if f.omitted || fieldOptional f then none else some (z f.ty)
-        if bit then
-          match skip f.ty f.mask.isNone cur with
-          | .error e => .error e
-          | .ok cur' => .ok (v, cur')
-        else .ok (v, cur)
-      else if bit then
-        match rd f.ty f.mask.isNone cur with
-        | .error e => .error e
-        | .ok (v, cur') => .ok (some v, cur')
-      else .ok (if fieldOptional f then none else some (z f.ty), cur)
-    match step with
+    match readField rd skip z isTrue f (testBit (nextBlock i block cur).1.toNat ((i + 1) % 8)) (nextBlock i block cur).2 with
     | .error e => .error e
     | .ok (v, cur') =>
-      match readFields2With rd skip z isTrue (i + 1) block fs cur' with
+      match readFields2With rd skip z isTrue (i + 1) (nextBlock i block cur).1 fs cur' with
       | .error e => .error e
       | .ok vs => .ok (v :: vs)
 
@@ -600,7 +605,7 @@ def readTL2 (d : Desc) : Nat → Rd2
               | some (.struct vs) =>
                 if u.isMaybe then
                   -- qt_maybe.qtpl: index 0 returns at once; index 1 reads the value iff bit 1 is set
-                  if idx == 0 then .ok (.union 0 (.struct (zeroFieldsWith (zeroVal d fuel) vs.fields)), rest)
+                  if idx == 0 then .ok (.union 0 (zeroVal d fuel vi), rest)
                   else
                     match vs.fields with
                     | [f] =>
@@ -611,9 +616,14 @@ def readTL2 (d : Desc) : Nat → Rd2
                       else .ok (.union idx (.struct [some (zeroVal d fuel f.ty)]), rest)
                     | _ => .error .desc
                 else
-                  match readFields2With (readTL2 d fuel) (skipTL2 d fuel) (zeroVal d fuel) (isTrueTy d) 0 block vs.fields cur1 with
-                  | .error e => .error e
-                  | .ok fs => .ok (.union idx (.struct fs), rest)
+                  -- the variant's fields are one reference deeper than the union (as in the writer, which goes through the
+                  -- variant struct): same fuel index for the field readers and the zero values on both sides
+                  match fuel with
+                  | 0 => .error .fuel
+                  | fuel' + 1 =>
+                    match readFields2With (readTL2 d fuel') (skipTL2 d fuel') (zeroVal d fuel') (isTrueTy d) 0 block vs.fields cur1 with
+                    | .error e => .error e
+                    | .ok fs => .ok (.union idx (.struct fs), rest)
               | _ => .error .desc
     | some (.array a) =>
       match sliceBody bs with
